@@ -132,6 +132,7 @@ type Ctx struct {
 	devFile   *os.File
 	curFile   *os.File
 	caseDesc  func() any
+	muted     bool // deviations of prefix cases during a replay are not reported
 	maxSample int
 }
 
@@ -202,6 +203,9 @@ func (c *Ctx) Inconclusive(reason string) {
 func (c *Ctx) Deviate(sig, detail string) {
 	c.mu.Lock()
 	defer c.mu.Unlock()
+	if c.muted {
+		return
+	}
 	c.sigCounts[sig]++
 	if c.sigCounts[sig] > 3 && !c.Replay {
 		return
@@ -271,6 +275,10 @@ func PanicSite() string {
 
 // ---- worker entry ---------------------------------------------------------
 
+// PrefixReplayer is implemented by properties whose cases are steps of one history per process:
+// replaying case i alone then means running cases 0..i (only i reports).
+type PrefixReplayer interface{ ReplayNeedsPrefix() bool }
+
 type WorkerArgs struct {
 	Prop   string
 	Tier   string
@@ -330,12 +338,16 @@ func RunWorker(a WorkerArgs) int {
 	lo, hi := 0, plan.Cases
 	if a.Only >= 0 {
 		lo, hi = a.Only, a.Only+1
+		if pr, ok := p.(PrefixReplayer); ok && pr.ReplayNeedsPrefix() {
+			lo = 0 // the case's outcome may depend on process state left by the cases before it
+		}
 	}
 	var cur [8]byte
 	done := 0
 	for i := lo; i < hi; i++ {
 		c.Index = i
 		c.caseDesc = nil
+		c.muted = a.Only >= 0 && i < a.Only
 		if c.curFile != nil {
 			binary.LittleEndian.PutUint64(cur[:], uint64(i))
 			c.curFile.WriteAt(cur[:], 0)
